@@ -1,4 +1,5 @@
 import SigHook.Gen.Cause
+import SigHook.Gen.Platform
 /-!
 L12 — `Origin::extract` (src/low_level/siginfo.rs:240-260) over the generated tables:
 `sighook_signal_cause` (extract.c), `ICause::has_process`, `From<ICause> for Cause`.
@@ -43,5 +44,37 @@ def extract (info : SigInfo) : Origin :=
   { signal := info.signo
     process := if hasProcess Gen.hasProcessTable c then some (info.pidField, info.uidField) else none
     cause := toCause Gen.toCauseTable Gen.toCauseDefault c }
+
+/-! ## The kernel's contract (environment; validated by real deliveries in the harness) -/
+
+/-- which `(signo, si_code)` carry valid `si_pid` / `si_uid` on Linux -/
+def kernelFills (signo code : Int) : Bool :=
+  code == Gen.SI_USER || code == Gen.SI_TKILL || code == Gen.SI_QUEUE || code == Gen.SI_MESGQ ||
+  (signo == Gen.SIGCHLD &&
+    (code == Gen.CLD_EXITED || code == Gen.CLD_KILLED || code == Gen.CLD_DUMPED ||
+     code == Gen.CLD_TRAPPED || code == Gen.CLD_STOPPED || code == Gen.CLD_CONTINUED))
+
+/-- the intended classification -/
+def specCause (signo code : Int) : Cause :=
+  if code = Gen.SI_KERNEL then .kernel
+  else if code = Gen.SI_USER then .sentUser
+  else if code = Gen.SI_TKILL then .sentTKill
+  else if code = Gen.SI_QUEUE then .sentQueue
+  else if code = Gen.SI_MESGQ then .sentMesgQ
+  else if signo = Gen.SIGCHLD then
+    if code = Gen.CLD_EXITED then .chldExited
+    else if code = Gen.CLD_KILLED then .chldKilled
+    else if code = Gen.CLD_DUMPED then .chldDumped
+    else if code = Gen.CLD_TRAPPED then .chldTrapped
+    else if code = Gen.CLD_STOPPED then .chldStopped
+    else if code = Gen.CLD_CONTINUED then .chldContinued
+    else .unknown
+  else .unknown
+
+/-- what the property demands of `extract info` (the monitor the harness applies to the real code) -/
+def specOrigin (info : SigInfo) : Origin :=
+  { signal := info.signo
+    process := if kernelFills info.signo info.code then some (info.pidField, info.uidField) else none
+    cause := specCause info.signo info.code }
 
 end SigHook.Origin
